@@ -1,0 +1,5 @@
+//go:build !verif
+
+package srv
+
+func verifAt(string) {}
